@@ -4117,10 +4117,15 @@ class SkoExMacro(Macro):
                 print('exp_x_body:', exp_x_body)
                 raise VeriTException("sko_ex", "unexpected result")
 
+        # Only the equations x = (skolem term of x) of the context are discharged.
         remain_hyps = []
         for hyp in prevs[0].hyps:
-            if not (hyp.is_equals() and hyp.lhs in xs):
+            if not (hyp.is_equals() and hyp.lhs in xs and hyp.rhs == ctx[hyp.lhs.name]):
                 remain_hyps.append(hyp)
+        # The skolemized variables are local to the context: none may stay free in the result.
+        for x in xs:
+            if rhs.occurs_var(x) or any(hyp.occurs_var(x) for hyp in remain_hyps):
+                raise VeriTException("sko", "skolemized variable %s is free in the result" % x)
         return Thm(goal, tuple(remain_hyps))
 
     def get_proof_term(self, args, prevs) -> ProofTerm:
@@ -4235,10 +4240,15 @@ class SkoForallMacro(Macro):
                 print('exp_x_body:', exp_x_body)
                 raise VeriTException("sko_forall", "unexpected result")
 
+        # Only the equations x = (skolem term of x) of the context are discharged.
         remain_hyps = []
         for hyp in prevs[0].hyps:
-            if not (hyp.is_equals() and hyp.lhs in xs):
+            if not (hyp.is_equals() and hyp.lhs in xs and hyp.rhs == ctx[hyp.lhs.name]):
                 remain_hyps.append(hyp)
+        # The skolemized variables are local to the context: none may stay free in the result.
+        for x in xs:
+            if rhs.occurs_var(x) or any(hyp.occurs_var(x) for hyp in remain_hyps):
+                raise VeriTException("sko", "skolemized variable %s is free in the result" % x)
         return Thm(goal, tuple(remain_hyps))
 
     def get_proof_term(self, args, prevs) -> ProofTerm:
